@@ -10,7 +10,14 @@ VH_FEATURES = []
 THEOREMS = {"glob_iff": "full: match_glob = wildcard semantics for every pattern and string", "select_spec": "full", "glob_literal": "full", "glob_trailing_stars": "full",
             "macbinary_strip": "full: recognised envelope -> data fork (or resource fork)", "macbinary_keep": "full", "mac_header_spec": "full: field-by-field characterisation",
             "no_filter_selects_all": "full", "flatten_ignores_path": "full", "flatten_single_component": "full", "relocate_prefix": "full",
-            "(extract_tree: resulting tree = archived tree)": "correspondence: real tree = independent oracle = Fs/Extract model"}
+            "run_tree_partial": "partial: lha x (no w=/i/wildcards) into an empty directory, root or ordinary user: for every well-formed "
+                                "(directory-first, explicit parents, safe links) entry list the archive denotes, the object at EVERY path below the "
+                                "extraction directory is the archived one and nothing outside changes; hypotheses evaluated on every generated "
+                                "in-domain archive by lhvt (op xtree) and the promised tree compared with the real tool's",
+            "dir_meta_final": "full under the same hypotheses: recorded directory mode and time survive the later writes into it",
+            "access_regimes": "full", "sample_tree_extracts": "non-vacuity on real archive bytes (kernel evaluation of parser+reader)",
+            "dir_entry_for_existing_dir_ignored": "fact outside the domain (contents before their directory entry)",
+            "(options i, w=, wildcards, pre-existing files, dangerous links: resulting tree)": "correspondence: real tree = independent oracle = Fs/Extract model"}
 TRUSTED = ["abstract file system LhasaV.Model.Fs and extraction model LhasaV.Model.Extract (x/e loop with wildcard filter, overwrite "
            "policy, parent creation, two-stage directories, placeholders, print command), tied to the real tool by complete-tree / "
            "stdout comparison on every generated run, as root and as an unprivileged user",
@@ -396,6 +403,10 @@ def prepare(ctx, env):
     if vh is None:
         return "harness (src/filter.c): " + err
     env["vh"] = vh
+    ok, log = core.lake_build(["lhvt"])
+    if not ok:
+        return "hypothesis driver lhvt (imports the ExtractTree proofs): " + log[-1500:]
+    env["lhvt"] = core.lhv_path() + "t"
     return None
 
 
@@ -493,8 +504,33 @@ def run_case(ctx, env, c):
             why = "extraction reported failure (exit status %d) although every member was extracted" % res["rc"]
     mop = "xrun2 %s %s %d %s %s %s %s %s" % (d["cmd"], optstr, 1 if d["as_root"] else 0, hx(res["abs_prefix"]), hx(d["answers"]),
                                            pre_m, fl, arch.hex())
+    top = tree_op(d, arch, res["abs_prefix"]) if in_theorem_domain(d) else None
     return {"why": why, "c_out": c_out, "rc": res["rc"], "listing": res["listing"], "stdout": res["stdout"], "model_op": mop,
-            "stderr": res["stderr"][:200], "cmd": d["cmd"]}
+            "stderr": res["stderr"][:200], "cmd": d["cmd"], "tree_op": top}
+
+
+THEOREM_OPTS = {"f", "q", "q0", "q1", "q2", "v"}
+
+
+def in_theorem_domain(d):
+    """the hypotheses of Props.C06.run_tree_partial that are about the invocation: `lha x`, no w=/i, no wildcard arguments,
+    empty extraction directory"""
+    return d["cmd"] == "x" and not d["filters"] and not d["pre"] and all(o in THEOREM_OPTS for o in d["opts"])
+
+
+def entry_desc(e):
+    path = hx(e.path.rstrip(b"/"))
+    pm = "-" if e.perms is None else str(e.perms & 0xffff)
+    if e.kind == "dir":
+        return "d:%s:%s:%d" % (path, pm, e.mtime)
+    if e.kind == "link":
+        return "l:%s:%s" % (path, hx(e.target))
+    return "f:%s:%s:%s:%d" % (path, hx(vis(e)), pm, e.mtime)
+
+
+def tree_op(d, arch, abs_prefix):
+    return "xtree %s %d %s %s %s" % (",".join(d["opts"]) or "-", 1 if d["as_root"] else 0, hx(abs_prefix),
+                                     ",".join(entry_desc(e) for e in d["ents"]) or "-", arch.hex())
 
 
 def evaluate(ctx, env, cases, with_model):
@@ -506,6 +542,11 @@ def evaluate(ctx, env, cases, with_model):
     if env.get("lhv") and with_model:
         mo, _ = core.run_lines_parallel([env["lhv"]], [r["model_op"] for r in rs])
         mouts = dict(enumerate(mo))
+    touts = {}
+    if env.get("lhvt") and with_model:
+        idx = [i for i, r in enumerate(rs) if r["tree_op"]]
+        to, _ = core.run_lines_parallel([env["lhvt"]], [rs[i]["tree_op"] for i in idx])
+        touts = dict(zip(idx, to))
     gpairs = glob_cases(ctx.rng, 4000 if ctx.tier == "quick" else 100000) if env.get("vh") else []
     if gpairs:
         gc, gr = run_globs(ctx, env if with_model else {**env, "lhv": env.get("lhv")}, gpairs)
@@ -533,6 +574,22 @@ def evaluate(ctx, env, cases, with_model):
             if not ok:
                 rec["why"] = "model and implementation disagree"
                 corr.append(rec)
+        if i in touts and not r["why"]:
+            # the theorem run_tree_partial on this very archive: hypotheses evaluated by lhvt, conclusion compared with the real tree
+            t = touts[i]
+            ctx.dist["theorem-domain-cases"] += 1
+            hyp = re.match(r"opts=1 wf=1 fuel=1 den=1 tree=(\S*)$", t)
+            real = sorted(x for x in r["listing"].split(";") if x.startswith("/726f6f74/"))
+            if hyp is None:
+                rec2 = dict(rec, why="TIE: hypotheses of Props.C06.run_tree_partial do not hold for a generated directory-first archive: " + t[:200],
+                            tree_out=t[:3000])
+                corr.append(rec2)
+            elif sorted(x for x in hyp.group(1).split(";") if x) != real or r["rc"] != 0:
+                rec2 = dict(rec, why="TIE: the tree promised by Props.C06.run_tree_partial (treeOf) differs from the tree the real tool produced",
+                            tree_out=t[:3000])
+                corr.append(rec2)
+            else:
+                ctx.dist["theorem-conclusion-confirmed"] += 1
     return conc, corr, {"evaluations": len(cases) + len(gpairs)}
 
 
@@ -548,9 +605,12 @@ def signature(case, c_out, why):
     return re.sub(r"[^a-zA-Z]+", "-", why)[:40]
 
 
-LEVEL_TEXT = ("Lean theorems: the wildcard matcher equals its specification for every pattern and string; path construction; the "
+LEVEL_TEXT = ("Lean theorems: extraction of a well-formed archive yields exactly the archived tree (every path, modes, times, link targets, "
+              "two-stage directories; root and ordinary user); the wildcard matcher equals its specification for every pattern and string; path construction; the "
               "file-system model of the whole extraction (Fs + Extract + Reader) is tied to the real tool by complete-tree and stdout "
               "comparison, and the real tool's tree is judged against an independent oracle of the archived tree (root and non-root).")
-LEVEL_NOTE = ("Partial: the file system is a model (no hard links, chown, umask fixed, whole-second times); the global tree-equality "
-              "statement is checked by correspondence, not proved. See evidence.theorems.")
-TECHNIQUE = "Lean 4 proof (glob semantics, path construction) + file-system-model correspondence + independent tree oracle"
+LEVEL_NOTE = ("Partial: the file system is a model (no hard links, chown, whole-second times); tree equality is PROVED for plain "
+              "`lha x` of well-formed archives with explicit parent entries (run_tree_partial, dir_meta_final) and checked by "
+              "correspondence for options i / w= / wildcards / pre-existing files / implicit parents. See evidence.theorems.")
+TECHNIQUE = ("Lean 4 proof (whole-tree theorem over the Fs/Extract/Reader models by loop invariant; glob semantics; MacBinary) + "
+             "hypothesis evaluation on generated archives + file-system-model correspondence + independent tree oracle")
